@@ -21,6 +21,12 @@ func init() {
 }
 
 func c11(c *Ctx) {
+	for _, fn := range []string{"litefs.(*DB).WriteSnapshotTo", "litefs.(*DB).Export", "litefs.(*DB).TryAcquireWriteLock"} {
+		short := fn[strings.LastIndex(fn, ".")+1:]
+		c.ExpectAll("private-guards/"+short, c.CallArgs(fn, c.P.PlainCalls("litefs.(*GuardSet).Unlock", "litefs.(*RWMutexGuard).RLock", "litefs.(*RWMutexGuard).TryLock"), 0), `.*litefs\.\(\*DB\)\.newGuardSet\(p0, 0\).*`, 1,
+			short+" locks through a guard set of its own (newGuardSet), never through a set shared under an owner id",
+			"two overlapping snapshots, exports or internal writers sharing one set: the second one's lock calls are no-ops and the first to finish unlocks for both - the internal write lock and an application's EXCLUSIVE are then granted while the other is still reading")
+	}
 	c.haltLockSetFollowsMode("halt")
 	{
 		// "WAL writes made without holding the write lock are refused": the refusal must be about the writing owner
